@@ -150,8 +150,9 @@ var specs = map[string]propSpec{
 	},
 	"C09": {
 		Units: []unitSpec{
-			{Name: "rapid-string-functions", Test: "TestC09Rapid", Rapid: true, QuickChecks: 80000, ThoroughChecks: 800000, QuickShards: 4, ThoroughShards: 15},
+			{Name: "rapid-string-functions", Test: "TestC09Rapid", Rapid: true, QuickChecks: 80000, ThoroughChecks: 800000, QuickShards: 4, ThoroughShards: 14},
 			{Name: "enum-substring-sweep", Test: "TestC09SubstringSweep", QuickShards: 1, ThoroughShards: 1},
+			{Name: "enum-small-domains", Test: "TestC09SmallDomains", QuickShards: 1, ThoroughShards: 1},
 		},
 		Assumptions: refAssumptions("ASCII strings only; number-typed arguments of concat and friends are not claimed by the statement"),
 	},
